@@ -314,6 +314,9 @@ class Facts:
         if getattr(self.renames, 'structured', None):
             import names
             names.apply_structured(self.j, self.renames.structured)
+        if getattr(self.renames, 'tuples', None):
+            import names
+            names.apply_tuples(self.j, self.renames.tuples)
         self.path = path
         self.crate = self.j['crate']
         self.config = self.j['config']
